@@ -701,3 +701,117 @@ impl World {
         });
     }
 }
+
+// ---------------------------------------------------------------- bind actors
+
+use penguin_mux::frame::BindType;
+
+#[derive(Clone, Copy, Debug, PartialEq, Eq, Hash)]
+pub enum BindAnswer {
+    Accept,
+    Reject,
+    /// drop the `BindRequest` without answering
+    DropIt,
+    /// keep the request forever without answering
+    Never,
+}
+
+pub fn btype_of(b: u8) -> BindType {
+    if b == 1 { BindType::Stream } else { BindType::Datagram }
+}
+
+impl World {
+    /// One `request_bind` call; the result is recorded as `BindResult { n }`.
+    pub fn spawn_bind_requester(&mut self, side: usize, n: u32, btype: u8, host: Vec<u8>, port: u16) {
+        let mux = self.mux(side);
+        let obs = self.obs.clone();
+        let name = format!("bindreq{n}.{}", if side == 0 { "a" } else { "b" });
+        obs.borrow_mut().begin(&name);
+        let n2 = name.clone();
+        self.sim.spawn(name, group_of(side), async move {
+            let r = mux.request_bind(&host, port, btype_of(btype)).await;
+            obs.borrow_mut().ev(Ev::BindResult { side, n, res: r.map_err(|e| format!("{e:?}")) });
+            obs.borrow_mut().end(&n2);
+        });
+    }
+
+    /// Collect `expect` bind requests, then answer them: `order[i]` is the index (arrival
+    /// order) of the i-th request to answer, `answers[j]` what to do with arrival j.
+    /// With `expect == 0` every request is answered immediately with `answers[0]` forever.
+    pub fn spawn_bind_responder(&mut self, side: usize, expect: usize, order: Vec<usize>, answers: Vec<BindAnswer>) {
+        let mux = self.mux(side);
+        let obs = self.obs.clone();
+        let name = format!("bindresp.{}", if side == 0 { "a" } else { "b" });
+        obs.borrow_mut().begin(&name);
+        let n2 = name.clone();
+        self.sim.spawn(name, group_of(side), async move {
+            let mut held: Vec<Option<penguin_mux::BindRequest<'static>>> = Vec::new();
+            loop {
+                if expect > 0 && held.len() >= expect {
+                    break;
+                }
+                match mux.next_bind_request().await {
+                    Ok(req) => {
+                        obs.borrow_mut().ev(Ev::BindSeen {
+                            side,
+                            flow: req.flow_id(),
+                            btype: req.bind_type() as u8,
+                            host: req.host().to_vec(),
+                            port: req.port(),
+                        });
+                        if expect == 0 {
+                            answer(&obs, side, req, answers[0]);
+                        } else {
+                            held.push(Some(req));
+                        }
+                    }
+                    Err(e) => {
+                        obs.borrow_mut().ev(Ev::BindNextErr { side, err: format!("{e:?}") });
+                        break;
+                    }
+                }
+            }
+            let mut keep = Vec::new();
+            for &j in &order {
+                if let Some(req) = held.get_mut(j).and_then(Option::take) {
+                    if let Some(k) = answer(&obs, side, req, answers[j]) {
+                        keep.push(k);
+                    }
+                }
+            }
+            obs.borrow_mut().end(&n2);
+            if !keep.is_empty() || held.iter().any(Option::is_some) {
+                // requests that are never answered stay alive with this task
+                std::future::pending::<()>().await;
+            }
+        });
+    }
+}
+
+fn answer(obs: &ObsRef, side: usize, req: penguin_mux::BindRequest<'static>, a: BindAnswer) -> Option<penguin_mux::BindRequest<'static>> {
+    let flow = req.flow_id();
+    match a {
+        BindAnswer::Accept => {
+            let _ = req.reply(true);
+            obs.borrow_mut().ev(Ev::BindAnswered { side, flow, how: "accept" });
+            // the request object is dropped after an explicit answer: its Drop sends a Reset as well
+            drop(req);
+            None
+        }
+        BindAnswer::Reject => {
+            let _ = req.reply(false);
+            obs.borrow_mut().ev(Ev::BindAnswered { side, flow, how: "reject" });
+            drop(req);
+            None
+        }
+        BindAnswer::DropIt => {
+            obs.borrow_mut().ev(Ev::BindAnswered { side, flow, how: "drop" });
+            drop(req);
+            None
+        }
+        BindAnswer::Never => {
+            obs.borrow_mut().ev(Ev::BindAnswered { side, flow, how: "never" });
+            Some(req)
+        }
+    }
+}
